@@ -143,6 +143,33 @@ theorem exitFarm_locked_spec {s s' : St} {farm f x farming : Nat} {rew : Option 
     · cases rew <;> (simp only [learnOpt, learn, burnLocked, energyOf]; split <;> simp [hed, hunl, hnow])
     · apply key; simp only [burnLocked]; split <;> rfl
 
+/-- `addLiquidityProxy` without merging -/
+theorem addLiq_plain_spec {s s' : St} {k la oa lp ul uo : Nat} {mk : Option LkTok} {o : Out}
+    (h : addLiq s k la oa [] lp ul uo mk = some (s', o)) :
+    0 < la ∧ ul ≤ la ∧ uo ≤ oa ∧ o.wOut = (s.wl.length, lp) ∧ o.locked = (k, la - ul) ∧
+    o.other = oa - uo ∧ o.base = 0 ∧ o.burned = (0, 0) ∧
+    s'.wl = s.wl ++ [⟨lp, k, ul, lp, 0, 0, ul⟩] ∧ s'.wf = s.wf ∧
+    s'.minted = s.minted + la ∧ s'.burnB = s.burnB + (la - ul) ∧ s'.burnL = s.burnL ∧
+    s'.eDed = s.eDed ∧ s'.lp = s.lp + lp ∧ s'.lk = s.lk.add k ul ∧ s'.unl = s.unl ∧
+    s'.now = s.now := by
+  simp only [addLiq, Option.bind_eq_bind, Option.bind_eq_some_iff, req_eq_some, sub?_eq_some,
+    Option.pure_def, Option.some.injEq, Prod.mk.injEq] at h
+  obtain ⟨_, ⟨hla, _⟩, lb, ⟨hul, rfl⟩, ob, ⟨huo, rfl⟩, rfl, rfl⟩ := h
+  exact ⟨hla, hul, huo, rfl, rfl, rfl, rfl, rfl, rfl, rfl, rfl, rfl, rfl, rfl, rfl, rfl, rfl, rfl⟩
+
+/-- `enterFarmProxy` with locked tokens, without merging -/
+theorem enterL_plain_spec {s s' : St} {farm k a : Nat} {ft : Nat × Nat} {rew : Option LkTok}
+    {m : Option ((Nat × Nat) × LkTok)} {stray : List LkTok} {o : Out}
+    (h : enterL s farm k a [] ft rew m stray = some (s', o)) :
+    0 < a ∧ o.fOut = (s.wf.length, ft.2) ∧ o.base = 0 ∧ o.locked = (0, 0) ∧ o.burned = (0, 0) ∧
+    s'.wf = s.wf ++ [⟨farm, ft.1, ft.2, .locked, k, a, ft.2, ft.2, a⟩] ∧ s'.wl = s.wl ∧
+    s'.minted = s.minted + a ∧ s'.burnB = s.burnB ∧ s'.burnL = s.burnL ∧ s'.eDed = s.eDed ∧
+    s'.now = s.now ∧ s'.lk = s.lk.add k a := by
+  simp only [enterL, Option.bind_eq_bind, Option.bind_eq_some_iff, req_eq_some,
+    Option.pure_def, Option.some.injEq, Prod.mk.injEq] at h
+  obtain ⟨_, ha, rfl, rfl⟩ := h
+  refine ⟨ha, ?_, rfl, rfl, rfl, ?_, ?_, ?_, ?_, ?_, ?_, ?_, ?_⟩ <;> cases rew <;> rfl
+
 /-- the base asset never leaves through any operation but `removeLiquidityProxy` -/
 theorem base_zero_of_ne_removeLiq {s s' : St} {op : Op} {o : Out} (h : step s op = some (s', o))
     (hne : ∀ w x rb ro, op ≠ .removeLiq w x rb ro) : o.base = 0 := by
